@@ -52,10 +52,18 @@ func (c FoCfg) unit() time.Duration {
 	return time.Duration(c.UnitSec) * time.Second
 }
 
-// tokErr is an error carrying a model token.
-type tokErr struct{ tok string }
+// tokErr is an error carrying a model token; it may wrap a well-known error so that errors.Is(err, X) holds
+// (builders fail with context errors, cache sentinels, ... in real life; the library must not special-case them).
+type tokErr struct {
+	tok  string
+	wrap error
+}
 
 func (e tokErr) Error() string { return e.tok }
+func (e tokErr) Unwrap() error { return e.wrap }
+
+// errFlavours are the errors a failing builder wraps, chosen per invocation.
+var errFlavours = []error{nil, context.Canceled, cache.ErrNotFound, context.DeadlineExceeded, cache.ErrExpired}
 
 // errTok maps an error returned by the library to the model's error token.
 func errTok(err error) string {
@@ -133,6 +141,7 @@ type sched struct {
 	inside  map[string]int    // builders currently inside, per model key (for the in-harness overlap assertion)
 	maxIn   map[string]int
 	yield   func() // free-running mode: called at gates to shake the schedule
+	flavour int    // rotates the error flavour of failing builders
 	gateLog bool
 	gateSt  bool
 }
@@ -294,7 +303,12 @@ func (s *sched) build(ctx context.Context, p, mk string, bg func() bool) (string
 	e := fmt.Sprintf("E:%s#%d", mk, n)
 	s.rec(Event{Ev: "bexit", P: p, K: mk, N: n, Err: e, C: "fail", TTL: c.ttl, Note: note, Bg: bg()})
 
-	return "", tokErr{e}
+	s.mu.Lock()
+	s.flavour++
+	fl := errFlavours[s.flavour%len(errFlavours)]
+	s.mu.Unlock()
+
+	return "", tokErr{tok: e, wrap: fl}
 }
 
 // ---- gate-wrapping backends ----------------------------------------------------------------------------------
@@ -312,7 +326,7 @@ func (g *gateRW) Read(ctx context.Context, key []byte) (interface{}, error) {
 	if c.fault {
 		g.s.rec(Event{Ev: "beRead", P: p, K: mk, C: "beerr", Err: "BE:r"})
 
-		return nil, tokErr{"BE:r"}
+		return nil, tokErr{tok: "BE:r"}
 	}
 
 	v, err := g.inner.Read(ctx, key)
@@ -338,7 +352,7 @@ func (g *gateRW) Write(ctx context.Context, key []byte, v interface{}) error {
 	if c.fault {
 		g.s.rec(Event{Ev: "beWrite", P: p, K: mk, V: decAny(v), TTL: ttl, C: "fault", Err: "BE:w"})
 
-		return tokErr{"BE:w"}
+		return tokErr{tok: "BE:w"}
 	}
 
 	err := g.inner.Write(ctx, key, v)
@@ -360,7 +374,7 @@ func (g *gateRWOf) Read(ctx context.Context, key []byte) (string, error) {
 	if c.fault {
 		g.s.rec(Event{Ev: "beRead", P: p, K: mk, C: "beerr", Err: "BE:r"})
 
-		return "", tokErr{"BE:r"}
+		return "", tokErr{tok: "BE:r"}
 	}
 
 	v, err := g.inner.Read(ctx, key)
@@ -393,7 +407,7 @@ func (g *gateRWOf) Write(ctx context.Context, key []byte, v string) error {
 	if c.fault {
 		g.s.rec(Event{Ev: "beWrite", P: p, K: mk, V: v, TTL: ttl, C: "fault", Err: "BE:w"})
 
-		return tokErr{"BE:w"}
+		return tokErr{tok: "BE:w"}
 	}
 
 	err := g.inner.Write(ctx, key, v)
@@ -516,7 +530,7 @@ func (a *anyFo) ErrsWalk(fn func(k []byte, tok string, e int64)) {
 }
 
 func (a *anyFo) ErrsWrite(ctx context.Context, key []byte, tok string) {
-	_ = a.f.Errors.Write(ctx, key, error(tokErr{tok}))
+	_ = a.f.Errors.Write(ctx, key, error(tokErr{tok: tok}))
 }
 
 type ofFo struct {
@@ -544,7 +558,7 @@ func (a *ofFo) ErrsWalk(fn func(k []byte, tok string, e int64)) {
 }
 
 func (a *ofFo) ErrsWrite(ctx context.Context, key []byte, tok string) {
-	_ = a.f.Errors.Write(ctx, key, error(tokErr{tok}))
+	_ = a.f.Errors.Write(ctx, key, error(tokErr{tok: tok}))
 }
 
 const foName = "fo"
